@@ -45,7 +45,11 @@ def config(V: List[Any], tvals: List[Any], P: Dict[str, Any], *, element=None, c
     opts1 = perm_dict({"x": opts2, "y": V[4], "z": [V[5], in_list]}, P.get("opts1", 0))
     n0 = perm_dict({"processor": lib.SrcD, "parameters": {"value": V[0]}}, P.get("node0", 0))
     n1 = perm_dict({"processor": proc1, "parameters": {"opts": opts1, "k": V[1]}}, P.get("node1", 0))
-    variables: Dict[str, Any] = {seq_var_name: {"values": list(tvals)}, "s": {"from_context": "sv"}}
+    tv_list: List[Any] = list(tvals)
+    if "domain_dict" in P:
+        # sweep values that are mappings themselves (legal: a value is handed to the element as is)
+        tv_list = [perm_dict({"g": tvals[0], "h": tvals[1]}, P.get("domain_dict", 0)), {"g": 1, "h": 2}]
+    variables: Dict[str, Any] = {seq_var_name: {"values": tv_list}, "s": {"from_context": "sv"}}
     if three_vars:
         variables["m"] = {"from_context": "mv"}
     if unref_vals is not None:
